@@ -3,7 +3,7 @@
    sc3/base/utils.py, sc3/synth/ugens/inout.py), tied to the code by harness/props/C03.py. *)
 From Coq Require Import ZArith List Bool Arith.
 Import ListNotations.
-Require Import SC3.model.Mce SC3.proofs.C03_mce SC3.proofs.C03_lists SC3.proofs.C03_wrap SC3.proofs.C03_full.
+Require Import SC3.model.Mce SC3.proofs.C03_mce SC3.proofs.C03_lists SC3.proofs.C03_wrap SC3.proofs.C03_full SC3.proofs.C03_rate.
 
 (* --- unit-generator constructors: SynthObject._multi_new ------------------------------ *)
 (* for ALL constructors new1, ALL argument vectors and states: without a non-empty list
@@ -107,8 +107,8 @@ Proof. exact flop_law_lemma. Qed.
    so mce_law applies to it.  FULL statement wanted (channel_list_methods_law): every
    _multichannel_perform method equals the channel list of the per-row method calls over
    flop([self, *args]): proved below as channel_list_methods_law, for every selector. *)
-Theorem channel_list_methods_law_partial : forall cls self mul add st,
-  cl_madd cls self mul add st = multi_new (new1_plain cls 1) [Lst self; mul; add] st.
+Theorem channel_list_methods_law_partial : forall base bm ba self mul add st,
+  cl_madd base bm ba self mul add st = multi_new (muladd_new1 base bm ba) [Lst self; mul; add] st.
 Proof. exact cl_madd_is_multi_new. Qed.
 
 (* --- output units ---------------------------------------------------------------------------- *)
@@ -166,18 +166,45 @@ Theorem channel_list_methods_length_is_max : forall (leaf : arg -> list arg -> M
 Proof. exact mc_perform_length. Qed.
 (* ... and for lagud/slew/clip/fold/wrap/moddif (and lag* with a non-zero time) a unit element's
    method is the constructor's own expansion of (unit :: picked arguments): mce_law applies again *)
-Theorem channel_list_methods_per_channel : forall cls u c rest,
-  mc_elem (leaf_method (MDirect cls)) (Scalar (U u c)) rest = multi_new (new1_plain cls 1) (Scalar (U u c) :: rest) /\
-  mc_elem (leaf_method (MClip cls)) (Scalar (U u c)) rest = multi_new (new1_plain cls 1) (Scalar (U u c) :: rest).
+Theorem channel_list_methods_per_channel : forall b u c rest st,
+  mc_elem (leaf_method (MClip b)) (Scalar (U u c)) rest st =
+    match unit_rate st u with
+    | RDemand => Err AttributeError
+    | r => multi_new (new1_plain (with_rate b r) 1) (Scalar (U u c) :: rest) st
+    end /\
+  mc_elem (leaf_method (MDirect b)) (Scalar (U u c)) rest st =
+    match unit_rate st u with
+    | RScalar | RDemand => Err AttributeError
+    | r => multi_new (new1_plain (with_rate b r) 1) (Scalar (U u c) :: rest) st
+    end.
 Proof. exact mc_per_channel. Qed.
 (* dup creates nothing; poll is one expansion over (trig, receiver, labels, id) and returns the receiver *)
 Theorem channel_list_dup_law : forall self n st, cl_dup self n st = Ok (Lst (repeat (Lst self) n)) st.
 Proof. exact cl_dup_eq. Qed.
-Theorem channel_list_poll_law : forall poll imp self trig label tid defl st,
+Theorem channel_list_poll_law : forall poll imp self trig label tid defl st rs,
+  rates_of st self = Some rs ->
   cl_poll poll imp self trig label tid defl st =
-  bind (multi_new (poll_new1 poll imp) [trig; Lst self; if is_none label then Lst defl else label; tid])
+  bind (multi_new (poll_new1 poll imp)
+          [unbubble (Lst rs); trig; Lst self; if is_none label then Lst defl else label; tid])
        (fun _ => ret (Lst self)) st.
 Proof. exact cl_poll_eq. Qed.
+
+(* THE RATE CLAUSE.  For a class whose rate is determined by _init_ugen from the unit's inputs
+   (BinaryOpUGen: _determine_rate; UnaryOpUGen: the input's rate; MulAdd: the rate of the inputs
+   tuple) every unit created by an expanded call -- the j-th one, in the SynthDef as it is at that
+   moment -- has the rate that the rate function gives for ITS OWN argument vector, i.e. for the
+   picked elements, not for the complete lists.  (mce_law already says that channel i is the
+   whole result of the same call on pick i, rate included, for any _new1; this is the clause
+   spelled out on the created units.)  Classes with a fixed constructor rate: new1_plain, the
+   rate is in the class id.  Convenience methods: channel_list_methods_per_channel, the rate is
+   that of the channel's receiver element. *)
+Theorem mce_rate_per_channel : forall base nouts (rf : ratefn) args st r st',
+  multi_new (new1_rated base nouts rf) args st = Ok r st' ->
+  exists new, st' = st ++ new /\
+    forall j u, nth_error new j = Some u ->
+      exists rt, rf (st ++ firstn j new) (uargs u) = Some rt /\
+                 ucls u = with_rate base rt /\ cls_rate (ucls u) = rt.
+Proof. exact multi_new_rated. Qed.
 
 (* Out.ar(bus, output), complete.  With n = the number of lists reachable through lists in
    as_list(output) (the code creates one DC.ar(0) per such list, zeros or not):
@@ -205,56 +232,67 @@ Proof. exact rz_exact. Qed.
 
 (* --- non-vacuity: the model computes, hypotheses are satisfiable -------------------------------- *)
 Definition k (z : Z) := Scalar (K z).
+Definition u (n : nat) := Scalar (U n 0).
+Definition ar (b : Z) := with_rate b RAudio.
+Definition kr (b : Z) := with_rate b RControl.
 (* SinOsc.ar([[1, 2], 3], [4, 5, 6]): five units, in this order *)
 Example mce_example :
-  observe (multi_new (new1_plain 1 1) [Lst [Lst [k 1; k 2]; k 3]; Lst [k 4; k 5; k 6]]) [] =
-  ORes (Lst [Lst [Scalar (U 0 0); Scalar (U 1 0)]; Scalar (U 2 0); Lst [Scalar (U 3 0); Scalar (U 4 0)]])
-       [mkUnit 1 [k 1; k 4]; mkUnit 1 [k 2; k 4]; mkUnit 1 [k 3; k 5]; mkUnit 1 [k 1; k 6]; mkUnit 1 [k 2; k 6]].
+  observe (multi_new (new1_plain (ar 1) 1) [Lst [Lst [k 1; k 2]; k 3]; Lst [k 4; k 5; k 6]]) [] =
+  ORes (Lst [Lst [u 0; u 1]; u 2; Lst [u 3; u 4]])
+       [mkUnit (ar 1) [k 1; k 4]; mkUnit (ar 1) [k 2; k 4]; mkUnit (ar 1) [k 3; k 5];
+        mkUnit (ar 1) [k 1; k 6]; mkUnit (ar 1) [k 2; k 6]].
 Proof. vm_compute. reflexivity. Qed.
 Example mce_example_guard : forallb noempty [Lst [Lst [k 1; k 2]; k 3]; Lst [k 4; k 5; k 6]] = true
   /\ count_calls [Lst [Lst [k 1; k 2]; k 3]; Lst [k 4; k 5; k 6]] = 5.
 Proof. vm_compute. auto. Qed.
 (* Out.ar(0, [[u0, 0], [0.0, u1, 7]]) after two prelude units: three DC units, three Out units *)
 Example out_example :
-  observe (out_ar 9 8 (k 0) (Lst [Lst [Scalar (U 0 0); k 0]; Lst [k 0; Scalar (U 1 0); k 7]]))
-          [mkUnit 1 [k 100; k 0]; mkUnit 1 [k 101; k 0]] =
-  ORes (Lst [Scalar (U 5 0); Scalar (U 6 0); Scalar (U 7 0)])
-       [mkUnit 1 [k 100; k 0]; mkUnit 1 [k 101; k 0]; mkUnit 9 [k 0]; mkUnit 9 [k 0]; mkUnit 9 [k 0];
-        mkUnit 8 [k 0; Scalar (U 0 0); Scalar (U 4 0)]; mkUnit 8 [k 0; Scalar (U 3 0); Scalar (U 1 0)];
-        mkUnit 8 [k 0; Scalar (U 0 0); k 7]].
+  observe (out_ar (ar 9) (ar 8) (k 0) (Lst [Lst [u 0; k 0]; Lst [k 0; u 1; k 7]]))
+          [mkUnit (ar 1) [k 100; k 0]; mkUnit (ar 1) [k 101; k 0]] =
+  ORes (Lst [u 5; u 6; u 7])
+       [mkUnit (ar 1) [k 100; k 0]; mkUnit (ar 1) [k 101; k 0]; mkUnit (ar 9) [k 0]; mkUnit (ar 9) [k 0]; mkUnit (ar 9) [k 0];
+        mkUnit (ar 8) [k 0; u 0; u 4]; mkUnit (ar 8) [k 0; u 3; u 1]; mkUnit (ar 8) [k 0; u 0; k 7]].
 Proof. vm_compute. reflexivity. Qed.
-(* ChannelList.madd AS WRITTEN IN sc3 TODAY violates the law: ChannelList([u0, u1]).madd([2, 3], 5)
-   gives a 2x2 nest and four MulAdd units where the law (and cl_madd) gives [u0*2+5, u1*3+5], two units.
-   The same call is the replay of the VIOLATION printed on the unrepaired tree. *)
+(* ChannelList.madd as written before fix 925c2da violated the law: ChannelList([u0, u1]).madd([2, 3], 5)
+   gave a 2x2 nest and four MulAdd units where the law (and cl_madd) gives [u0*2+5, u1*3+5], two units. *)
 Example cl_madd_unpatched_violates_law :
-  let pre := [mkUnit 1 [k 100; k 0]; mkUnit 1 [k 101; k 0]] in
-  let self := [Scalar (U 0 0); Scalar (U 1 0)] in
-  observe (cl_madd 7 self (Lst [k 2; k 3]) (k 5)) pre =
-    ORes (Lst [Scalar (U 2 0); Scalar (U 3 0)])
-         (pre ++ [mkUnit 7 [Scalar (U 0 0); k 2; k 5]; mkUnit 7 [Scalar (U 1 0); k 3; k 5]]) /\
-  observe (cl_madd_unpatched 7 self (Lst [k 2; k 3]) (k 5)) pre =
-    ORes (Lst [Lst [Scalar (U 2 0); Scalar (U 3 0)]; Lst [Scalar (U 4 0); Scalar (U 5 0)]])
-         (pre ++ [mkUnit 7 [Scalar (U 0 0); k 2; k 5]; mkUnit 7 [Scalar (U 0 0); k 3; k 5];
-                  mkUnit 7 [Scalar (U 1 0); k 2; k 5]; mkUnit 7 [Scalar (U 1 0); k 3; k 5]]).
+  let pre := [mkUnit (ar 1) [k 100; k 0]; mkUnit (ar 1) [k 101; k 0]] in
+  observe (cl_madd 7 3 2 [u 0; u 1] (Lst [k 2; k 3]) (k 5)) pre =
+    ORes (Lst [u 2; u 3]) (pre ++ [mkUnit (ar 7) [u 0; k 2; k 5]; mkUnit (ar 7) [u 1; k 3; k 5]]) /\
+  observe (cl_madd_unpatched 7 3 2 [u 0; u 1] (Lst [k 2; k 3]) (k 5)) pre =
+    ORes (Lst [Lst [u 2; u 3]; Lst [u 4; u 5]])
+         (pre ++ [mkUnit (ar 7) [u 0; k 2; k 5]; mkUnit (ar 7) [u 0; k 3; k 5];
+                  mkUnit (ar 7) [u 1; k 2; k 5]; mkUnit (ar 7) [u 1; k 3; k 5]]).
 Proof. vm_compute. split; reflexivity. Qed.
-
-(* ChannelList([u0, u1]).lagud([7, 8, 9], 5): three LagUD units, receiver and times wrap *)
-Example methods_example :
-  observe (mc_perform (MDirect 4) [Scalar (U 0 0); Scalar (U 1 0)] [Lst [k 7; k 8; k 9]; k 5])
-          [mkUnit 1 [k 100; k 0]; mkUnit 1 [k 101; k 0]] =
-  ORes (Lst [Scalar (U 2 0); Scalar (U 3 0); Scalar (U 4 0)])
-       [mkUnit 1 [k 100; k 0]; mkUnit 1 [k 101; k 0];
-        mkUnit 4 [Scalar (U 0 0); k 7; k 5]; mkUnit 4 [Scalar (U 1 0); k 8; k 5]; mkUnit 4 [Scalar (U 0 0); k 9; k 5]].
-Proof. vm_compute. reflexivity. Qed.
-(* ChannelList([u0, u1]) + [5, 6, 7] through the fused law's hypotheses *)
-Example binop_example :
-  observe (cl_binop 3 Z.add (Lst [Scalar (U 0 0); Scalar (U 1 0)]) (Lst [k 5; k 6; k 7]))
-          [mkUnit 1 [k 100; k 0]; mkUnit 1 [k 101; k 0]] =
-  ORes (Lst [Scalar (U 2 0); Scalar (U 3 0); Scalar (U 4 0)])
-       [mkUnit 1 [k 100; k 0]; mkUnit 1 [k 101; k 0];
-        mkUnit 3 [Scalar (U 0 0); k 5]; mkUnit 3 [Scalar (U 1 0); k 6]; mkUnit 3 [Scalar (U 0 0); k 7]].
-Proof. vm_compute. reflexivity. Qed.
-Example out_example_count : nlists (Lst [Lst [Scalar (U 0 0); k 0]; Lst [k 0; Scalar (U 1 0); k 7]]) = 3.
+(* MIXED RATES.  MulAdd.new([ar_sig, kr_sig], 2, 5): channel 0 is an audio-rate MulAdd, channel 1 a
+   CONTROL-rate one, exactly what MulAdd.new(kr_sig, 2, 5) gives on its own (mce_rate_per_channel).
+   A MulAdd whose units keep the rate computed once from the unexpanded lists (the seeded
+   mutation: no rate recomputation in _init_ugen) would make channel 1 audio rate: the model of
+   that variant, muladd_new_global_rate, differs from the law on this very call. *)
+Definition muladd_new_global_rate (base : Z) (input mul add : arg) : M arg :=
+  fun st => match inputs_ratef st [input; mul; add] with
+            | Some r => multi_new (new1_plain (with_rate base r) 1) [input; mul; add] st
+            | None => Err IndexError
+            end.
+Example mixed_rate_example :
+  let pre := [mkUnit (ar 1) [k 100; k 0]; mkUnit (kr 1) [k 101; k 0]] in
+  observe (muladd_new 7 3 2 (Lst [u 0; u 1]) (k 2) (k 5)) pre =
+    ORes (Lst [u 2; u 3]) (pre ++ [mkUnit (ar 7) [u 0; k 2; k 5]; mkUnit (kr 7) [u 1; k 2; k 5]]) /\
+  observe (muladd_new 7 3 2 (u 1) (k 2) (k 5)) pre =
+    ORes (u 2) (pre ++ [mkUnit (kr 7) [u 1; k 2; k 5]]) /\
+  observe (muladd_new_global_rate 7 (Lst [u 0; u 1]) (k 2) (k 5)) pre =
+    ORes (Lst [u 2; u 3]) (pre ++ [mkUnit (ar 7) [u 0; k 2; k 5]; mkUnit (ar 7) [u 1; k 2; k 5]]).
+Proof. vm_compute. repeat split; reflexivity. Qed.
+(* ChannelList([u0 (ar), u1 (kr)]) * 2 and .lagud: each channel's unit has its operand's rate *)
+Example mixed_rate_ops :
+  let pre := [mkUnit (ar 1) [k 100; k 0]; mkUnit (kr 1) [k 101; k 0]] in
+  observe (cl_binop 3 Z.mul (Lst [u 0; u 1]) (k 2)) pre =
+    ORes (Lst [u 2; u 3]) (pre ++ [mkUnit (ar 3) [u 0; k 2]; mkUnit (kr 3) [u 1; k 2]]) /\
+  observe (mc_perform (MDirect 4) [u 0; u 1] [Lst [k 7; k 8; k 9]; k 5]) pre =
+    ORes (Lst [u 2; u 3; u 4])
+         (pre ++ [mkUnit (ar 4) [u 0; k 7; k 5]; mkUnit (kr 4) [u 1; k 8; k 5]; mkUnit (ar 4) [u 0; k 9; k 5]]).
+Proof. vm_compute. split; reflexivity. Qed.
+Example out_example_count : nlists (Lst [Lst [u 0; k 0]; Lst [k 0; u 1; k 7]]) = 3.
 Proof. reflexivity. Qed.
 
 Print Assumptions mce_law.
@@ -264,3 +302,4 @@ Print Assumptions out_splice_and_silence_partial.
 Print Assumptions list_binop_wrap_law.
 Print Assumptions channel_list_methods_law.
 Print Assumptions out_splice_and_silence.
+Print Assumptions mce_rate_per_channel.
